@@ -165,14 +165,77 @@ def one_case(rep, cs, seed, i):
     cs.add(desc, term, interp, nontrivial=desc["n"] >= 3)
 
 
+def overlap_case(rep, cs, seed, i):
+    """multi-output operands whose outputs are defined over overlapping but different scopes (chains x_a*x_b, x_b*x_c, ...),
+    optionally under sum layers: the product must be refused or be smooth and decomposable"""
+    rng = rng_for(seed, PID + "ov", i)
+    K = 1
+
+    def mk():
+        nv = rng.choice([3, 3, 4])
+        vs = list(range(nv))
+        layers, ins = [], {}
+        inp = {v: emb(v, K) for v in vs}
+        layers.extend(inp.values())
+        outs = []
+        for _ in range(rng.choice([2, 2, 3])):
+            sub = rng.sample(vs, rng.choice([2, 2, 3]) if nv > 3 else 2)
+            kind = rng.choice(["had", "had", "kron"])
+            pl = L.HadamardLayer(K, arity=len(sub)) if kind == "had" else L.KroneckerLayer(K, arity=len(sub))
+            layers.append(pl)
+            ins[pl] = [inp[v] for v in sub]
+            if rng.random() < 0.4:
+                sl = L.SumLayer(K, K, arity=1, weight=P.Parameter.from_input(P.ConstantParameter(K, K, value=1.0)))
+                layers.append(sl)
+                ins[sl] = [pl]
+                pl = sl
+            outs.append(pl)
+        used = set()
+        stack = list(outs)
+        while stack:
+            x = stack.pop()
+            if x not in used:
+                used.add(x)
+                stack.extend(ins.get(x, []))
+        layers = [l for l in layers if l in used]
+        return Circuit(layers, {l: v for l, v in ins.items() if l in used}, outs)
+
+    try:
+        a = mk()
+        b = a if rng.random() < 0.5 else mk()
+    except Exception as e:
+        rep.count("overlap-build-failed:" + type(e).__name__)
+        return
+    sm, de = spec_preds(a)
+    desc = {"i": i, "seed": seed, "op": "multiply", "family": "overlapping-output-scopes", "n": len(a.layers),
+            "out_scopes": [[sorted(c.layer_scope(o)._set) for o in c.outputs] for c in (a, b)]}
+    rep.count("family:overlapping-output-scopes")
+    res, err = call(SF.multiply, a, b)
+    rep.count("overlap:" + (err or "returned"))
+    if res is not None:
+        check_result(rep, desc, "multiply", res, sorted(a.scope._set), len(a.outputs) * len(b.outputs))
+    ex = export.Exporter()
+    impl = [0 if res is not None else 1]
+    term = f"[match multiply_m {ex.circuit(a)} {ex.circuit(b)} with Ok _ => 0 | Err _ => 1 end]"
+
+    def interp(res_, desc=desc, impl=impl):
+        if res_ != impl:
+            rep.violation("refusal-corr", "the model operator and cirkit disagree on whether the pair is refused",
+                          {"case": desc, "model": res_, "implementation": impl}, found_input=False)
+
+    cs.add(desc, term, interp, nontrivial=True)
+
+
 def run(rep, tier, seed, replay=None):
     n = 300 if tier == "quick" else 5000
     cs = CaseSet(rep, PID)
     if replay is not None:
         c = replay["replay"].get("case", {})
-        one_case(rep, cs, c.get("seed", seed), c.get("i", 0))
+        (overlap_case if c.get("family") == "overlapping-output-scopes" else one_case)(rep, cs, c.get("seed", seed), c.get("i", 0))
         cs.run()
         return
     for i in range(n):
         one_case(rep, cs, seed, i)
+    for i in range(max(30, n // 8)):
+        overlap_case(rep, cs, seed, i)
     cs.run(shard=max(10, n // 14))
